@@ -169,11 +169,23 @@ func (c16) Run(t *tape.Tape, st *Stats) *Violation {
 			refmodel.PutBE(hdr, 34, 2, uint64(t.Intn(60)))
 		}
 		what = "random header"
+		if t.Chance(3, 4) {
+			// bytes 100..127 are reserved and zero in every real profile (a reader that
+			// has lost its place reads the tag count from them)
+			for i := 100; i < 128; i++ {
+				hdr[i] = 0
+			}
+			what = "random header, reserved bytes zero"
+		}
 	}
 	prof := refmodel.DrawICC(t, refmodel.ICCOpts{RawHeader: hdr, KeepSize: true, MaxTags: 6})
 	data := prof.Bytes
 	m := decodeHeaderModel(data)
 	cfg := DrawDelivery(t, prof.Fields, true)
+	ioFault := DrawIOFault(t, &cfg, nil, 127)
+	if mode != 5 && ioFault {
+		ioFault, cfg.ErrAt = false, -1 // the bit sweeps are enumerations: every case is judged
+	}
 	src := simio.NewSource(simio.Bytes(data), cfg)
 	var rd binary.Reader = simio.ByteSource{Source: src}
 	how := "simulated binary.Reader"
@@ -212,6 +224,7 @@ func (c16) Run(t *tape.Tape, st *Stats) *Violation {
 	deliveryStats(st, src)
 	st.Probe("profile_id_read_straddled_delivery", src.ShortReads > 0 && cfg.Policy != simio.Full)
 	st.Probe("signature_absent", m.Magic != 0x61637370)
+	st.Fault("io_error_inside_the_header", ioFault, src.ErrFired > 0)
 	st.Probe("earlier_read_with_the_same_profile_id", earlierRead)
 	st.Probe("earlier_read_with_the_same_nonzero_profile_id", earlierRead && m.ID != [16]byte{})
 	if src.Delivered >= 128 || m.Magic != 0x61637370 {
@@ -229,7 +242,7 @@ func (c16) Run(t *tape.Tape, st *Stats) *Violation {
 		st.Sample(render())
 	}
 	fail := func(field, detail string) *Violation {
-		return &Violation{Class: field, Sig: "header:" + field, Detail: detail + " [" + what + "]", Render: render(), OwnHistory: earlierRead}
+		return &Violation{Class: field, Sig: "header:" + field, Detail: detail + " [" + what + "]" + faultNote(cfg, src.ErrFired), Render: render(), OwnHistory: earlierRead}
 	}
 	if panicked != nil {
 		return fail("panic", fmt.Sprintf("ReadProfile panicked: %v", panicked))
@@ -239,6 +252,9 @@ func (c16) Run(t *tape.Tape, st *Stats) *Violation {
 			return fail("signature-not-rejected", fmt.Sprintf("bytes 36..39 are %q, not 'acsp', yet ReadProfile succeeded", data[36:40]))
 		}
 		return nil
+	}
+	if err != nil && src.ErrFired > 0 {
+		return nil // the source reported an I/O error: failing is right (succeeding with other values is not, below)
 	}
 	if err != nil || p == nil {
 		return fail("unexpected-error", fmt.Sprintf("header carries 'acsp' and the profile is well-formed but ReadProfile failed: %v", err))
